@@ -119,7 +119,12 @@ class World(BaseWorld):
     def stored_poly(self, s):
         p = RefPoly(self.kind)
         for k, v in (s.obj.items() if s.t == "dict" else dict.items(s.obj)):
-            p.add_term(tuple(k), v)
+            try:
+                p.add_term(tuple(k), v)
+            except (OverflowError, ValueError, TypeError) as e:
+                # inf / nan / non-numeric coefficient: the generated numbers are all small and exact, so this is the library's doing
+                raise Violation("value_tracking" if "value_tracking" in self.active else "unexpected_exception",
+                                "%s holds a non-finite or non-numeric coefficient %r under %r (%s)" % (s.t, v, k, e))
         return p
 
     def check_tracking(self, s, where):
